@@ -124,9 +124,10 @@ func (s *Stats) Case(v interface{}, nontrivial bool, classes []string) {
 	// keep up to 3 non-trivial samples (else the first case) — small ones preferred
 	if len(s.Samples) < 3 && (nontrivial || s.Evaluations == 1) {
 		bz, _ := json.Marshal(v)
-		if len(bz) < 6000 {
-			s.Samples = append(s.Samples, bz)
+		if len(bz) > 6000 { // long histories: keep the head of the case as text
+			bz, _ = json.Marshal(map[string]interface{}{"truncated_to_bytes": 6000, "of_bytes": len(bz), "head": string(bz[:6000])})
 		}
+		s.Samples = append(s.Samples, bz)
 	}
 }
 
